@@ -564,6 +564,10 @@ inline void validity(NifFile& nif, NiShape* shape, std::vector<Problem>& out) {
 			if (t.p1 >= nv || t.p2 >= nv || t.p3 >= nv) { P("triangle-index", vf::strf("triangle (%u,%u,%u) with %u vertices", t.p1, t.p2, t.p3, nv)); break; }
 		if (auto dyn = dynamic_cast<BSDynamicTriShape*>(shape))
 			if (dyn->dynamicData.size() != nv) P("dynamicdata-count", vf::strf("%u vertices but %zu dynamic entries", nv, dyn->dynamicData.size()));
+		// the LOD levels of a BSMeshLODTriShape are counts of triangles of its own list
+		if (auto lod = dynamic_cast<BSMeshLODTriShape*>(shape))
+			if ((uint64_t) lod->lodSize0 + lod->lodSize1 + lod->lodSize2 > ntris)
+				P("meshlod-levels-exceed-triangles", vf::strf("LOD sizes %u+%u+%u but %u triangles", lod->lodSize0, lod->lodSize1, lod->lodSize2, ntris));
 		if (auto sub = dynamic_cast<BSSubIndexTriShape*>(shape)) {
 			auto& sg = sub->segmentation;
 			bool fo4 = hdr.GetVersion().Stream() >= 130;
